@@ -37,6 +37,7 @@ import (
 
 	pb "go.etcd.io/etcd/api/v3/etcdserverpb"
 	clientv3 "go.etcd.io/etcd/client/v3"
+	"go.etcd.io/etcd/client/v3/concurrency"
 	"go.etcd.io/etcd/client/v3/namespace"
 	"pgregory.net/rapid"
 	"verif.local/vfkit"
@@ -114,6 +115,9 @@ type c18World struct {
 	staleWinPut    bool
 	postGateExpire bool
 	mismatchOther  int
+	unnoticed      bool
+	overtaken      bool
+	rotated        bool
 }
 
 type c18Mgr struct {
@@ -129,6 +133,7 @@ type c18Mgr struct {
 	inAcq  map[int]bool // resource -> an Acquire is in flight (singleflight would merge a second one)
 	inRel  map[int]bool
 	closed bool // ReleaseAll was called
+	unnoticed bool // did not let go of an ended session within 5 s (see awaitNoticed)
 }
 
 func (m *c18Mgr) lm() *LeaseManager {
@@ -580,6 +585,15 @@ func (w *c18World) check(nres int) (string, error) {
 			}
 		}
 		if len(owners) > 1 {
+			var still []*c18Mgr
+			for _, m := range owners {
+				if w.stillOwnsAfterGrace(m, r) {
+					still = append(still, m)
+				}
+			}
+			if len(still) < 2 {
+				return "", fmt.Errorf("%w: a manager dropped its ownership only after seconds", errC18Inconclusive)
+			}
 			ids := []string{}
 			for _, m := range owners {
 				ids = append(ids, fmt.Sprintf("%s(gen %d)", m.id, m.gen))
@@ -597,7 +611,7 @@ func (w *c18World) check(nres int) (string, error) {
 				if perr != nil {
 					return "", perr
 				}
-				if ok && owners[0].owns(r) {
+				if ok && w.stillOwnsAfterGrace(owners[0], r) {
 					return fmt.Sprintf("two live brokers believe they own %s: %s still reports Owns()==true although its etcd key had vanished, and a fresh broker acquired the lease",
 						w.key(r), owners[0].id), nil
 				}
@@ -662,21 +676,123 @@ func (w *c18World) expire(m *c18Mgr) (bool, error) {
 		return false, fmt.Errorf("%w: revoke: %v", errC18Inconclusive, err)
 	}
 	sess.Orphan()
-	deadline := time.Now().Add(60 * time.Second)
+	w.awaitNoticed(m, sess)
+	w.trace = append(w.trace, fmt.Sprintf("expire(%s.%d)", m.id, m.gen))
+	return true, nil
+}
+
+// awaitNoticed waits until the manager has let go of the ended session (session.Done() is
+// already closed; what remains is its own goroutine taking the manager's mutex, which needs
+// microseconds). A manager that has not reacted after 5 s with the harness idle is recorded as
+// "does not notice by itself"; nothing is concluded from that alone - only a later double
+// ownership counts, and check() gives such a manager another 10 s before reporting it.
+func (w *c18World) awaitNoticed(m *c18Mgr, sess *concurrency.Session) {
+	lm := m.lm()
+	deadline := time.Now().Add(5 * time.Second)
 	for {
 		lm.mu.RLock()
 		cur := lm.session
 		lm.mu.RUnlock()
 		if cur != sess {
-			break
+			return
 		}
 		if time.Now().After(deadline) {
-			return false, fmt.Errorf("%w: manager never noticed its expired session", errC18Inconclusive)
+			m.unnoticed = true
+			w.unnoticed = true
+			return
 		}
 		time.Sleep(50 * time.Microsecond)
 	}
-	w.trace = append(w.trace, fmt.Sprintf("expire(%s.%d)", m.id, m.gen))
-	return true, nil
+}
+
+// stillOwnsAfterGrace: a manager flagged by awaitNoticed gets 10 more seconds to drop r.
+func (w *c18World) stillOwnsAfterGrace(m *c18Mgr, r int) bool {
+	if !m.unnoticed {
+		return m.owns(r)
+	}
+	deadline := time.Now().Add(10 * time.Second)
+	for m.owns(r) {
+		if time.Now().After(deadline) {
+			return true
+		}
+		time.Sleep(time.Millisecond)
+	}
+	return false
+}
+
+// expireOvertake is session loss with one specific order inside the manager: an Acquire of a
+// resource the manager does not own yet reaches the manager's locked "is my session still
+// alive" check BEFORE the session monitor goroutine gets the mutex. The harness holds a read
+// lock on the manager's mutex, starts the Acquire and waits until it queues for the write
+// lock (TryRLock fails while a writer is pending), then ends the session (lease revoked on
+// the server, keep-alive stream ended) and lets go: writers get the mutex in arrival order.
+func (w *c18World) expireOvertake(m *c18Mgr, r int) (bool, error) {
+	lm := m.lm()
+	lm.mu.RLock()
+	sess := lm.session
+	if sess == nil || m.inAcq[r] {
+		lm.mu.RUnlock()
+		return false, nil
+	}
+	done := make(chan struct{})
+	m.inAcq[r] = true
+	w.mu.Lock()
+	w.active++
+	w.mu.Unlock()
+	go func() {
+		defer func() {
+			rec := recover()
+			w.mu.Lock()
+			if rec != nil && w.panicMsg == "" {
+				w.panicMsg = fmt.Sprint(rec)
+			}
+			delete(m.inAcq, r)
+			w.active--
+			w.cond.Broadcast()
+			w.mu.Unlock()
+			close(done)
+		}()
+		_ = m.acquire(r)
+	}()
+	queued := false
+	deadline := time.Now().Add(30 * time.Second)
+wait:
+	for time.Now().Before(deadline) {
+		if lm.mu.TryRLock() {
+			lm.mu.RUnlock()
+		} else {
+			queued = true
+			break
+		}
+		select {
+		case <-done:
+			break wait
+		default:
+		}
+		w.mu.Lock()
+		a := w.active
+		w.mu.Unlock()
+		if a == 0 {
+			break // parked at a gate or finished without reaching the write lock
+		}
+		time.Sleep(20 * time.Microsecond)
+	}
+	ctx, cancel := c18Ctx()
+	_, err := w.adminCli.Revoke(ctx, sess.Lease())
+	cancel()
+	if err != nil && !strings.Contains(err.Error(), "lease not found") {
+		lm.mu.RUnlock()
+		_ = w.waitQuiet()
+		return false, fmt.Errorf("%w: revoke: %v", errC18Inconclusive, err)
+	}
+	sess.Orphan()
+	lm.mu.RUnlock()
+	if err := w.waitQuiet(); err != nil {
+		return false, err
+	}
+	w.awaitNoticed(m, sess)
+	w.trace = append(w.trace, fmt.Sprintf("expire(%s.%d) with acquire(%d) overtaking the session monitor [queued=%v]", m.id, m.gen, r, queued))
+	return queued, nil
 }
 
 // kill ends a broker process: in-flight calls never return to it, keep-alives stop, its etcd
@@ -894,7 +1010,7 @@ func TestVF_C18_Schedules(t *testing.T) {
 		st.Eval()
 		kind := rapid.SampledFrom([]string{"partition", "group"}).Draw(rt, "kind")
 		nm := rapid.IntRange(2, 3).Draw(rt, "managers")
-		nres := rapid.SampledFrom([]int{1, 1, 2}).Draw(rt, "resources")
+		nres := rapid.SampledFrom([]int{1, 1, 2, 2}).Draw(rt, "resources")
 		nops := rapid.IntRange(4, 10).Draw(rt, "nops")
 		slow := rapid.SampledFrom([]string{"none", "delete", "delete", "rewrite", "rewrite", "rewrite", "post", "b0", "txn-pre"}).Draw(rt, "slow")
 		w := env.world(st, kind, nm, known)
@@ -912,10 +1028,34 @@ func TestVF_C18_Schedules(t *testing.T) {
 		launched := 0
 		results := map[string]int{}
 		var resMu sync.Mutex
+		startAcquire := func(slot, r int) {
+			m := w.mgrs[slot]
+			m.inAcq[r] = true
+			ops = append(ops, fmt.Sprintf("acquire(b%d,%d)", slot, r))
+			w.trace = append(w.trace, fmt.Sprintf("start acquire(b%d,%d)", slot, r))
+			fail("", w.launch(func() {
+				err := m.acquire(r)
+				resMu.Lock()
+				switch {
+				case err == nil:
+					results["acquire-ok"]++
+				case errors.Is(err, ErrNotOwner):
+					results["acquire-notowner"]++
+				case errors.Is(err, ErrShuttingDown):
+					results["acquire-shutdown"]++
+				default:
+					results["acquire-error"]++
+				}
+				resMu.Unlock()
+				w.mu.Lock()
+				delete(m.inAcq, r)
+				w.mu.Unlock()
+			}))
+		}
 		launchOne := func() {
 			launched++
 			opk := rapid.SampledFrom([]string{"acquire", "acquire", "acquire", "acquire", "acquire", "acquire", "release", "release", "release", "release",
-				"expire", "expire", "releaseAll", "crash", "crash", "takeover"}).Draw(rt, "op")
+				"expire", "expire", "expire-overtake", "expire-overtake", "rotate", "rotate", "releaseAll", "crash", "crash", "takeover"}).Draw(rt, "op")
 			// a lease key is free while another broker's write for it is still on its way: that is
 			// the moment a competing acquire is most interesting, so it is usually started now
 			racing := false
@@ -963,6 +1103,19 @@ func TestVF_C18_Schedules(t *testing.T) {
 						if race {
 							hot = append(hot, c, c)
 						}
+						// session rotation: this manager has an answered-but-undelivered acquire for
+						// ANOTHER key and no session any more - an Acquire now puts it on a new session
+						lm := m.lm()
+						lm.mu.RLock()
+						noSession := lm.session == nil
+						lm.mu.RUnlock()
+						if noSession {
+							for _, g := range parked {
+								if g.mgr == m && g.phase == "post" && c18IsWrite(g) && g.txnOK && g.key != w.key(c.r) {
+									hot = append(hot, c, c)
+								}
+							}
+						}
 						if m.inRel[c.r] || (keys[w.key(c.r)] == m.id && !m.owns(c.r)) {
 							hot = append(hot, c)
 						}
@@ -974,29 +1127,100 @@ func TestVF_C18_Schedules(t *testing.T) {
 				} else {
 					pk = free[rapid.IntRange(0, len(free)-1).Draw(rt, "freeIdx")]
 				}
-				slot, r := pk.slot, pk.r
-				m := w.mgrs[slot]
-				m.inAcq[r] = true
-				ops = append(ops, fmt.Sprintf("acquire(b%d,%d)", slot, r))
-				w.trace = append(w.trace, fmt.Sprintf("start acquire(b%d,%d)", slot, r))
-				fail("", w.launch(func() {
-					err := m.acquire(r)
-					resMu.Lock()
-					switch {
-					case err == nil:
-						results["acquire-ok"]++
-					case errors.Is(err, ErrNotOwner):
-						results["acquire-notowner"]++
-					case errors.Is(err, ErrShuttingDown):
-						results["acquire-shutdown"]++
-					default:
-						results["acquire-error"]++
+				startAcquire(pk.slot, pk.r)
+			case "rotate":
+				// "the session is rotated by an Acquire of another resource while the answer to an
+				// acquire transaction for X is still undelivered": if no manager is in that position
+				// yet, one acquire is driven up to its undelivered answer first
+				if nres < 2 {
+					ops = append(ops, "skip-rotate")
+					return
+				}
+				var answered []*c18Gate
+				for _, g := range w.parkedNow() {
+					if g.phase == "post" && c18IsWrite(g) && g.txnOK && w.mgrs[g.mgr.slot] == g.mgr && !g.mgr.closed {
+						answered = append(answered, g)
 					}
-					resMu.Unlock()
-					w.mu.Lock()
-					delete(m.inAcq, r)
-					w.mu.Unlock()
-				}))
+				}
+				var m *c18Mgr
+				x := -1
+				if len(answered) > 0 {
+					g := answered[rapid.IntRange(0, len(answered)-1).Draw(rt, "answeredIdx")]
+					m = g.mgr
+					for r := 0; r < nres; r++ {
+						if w.key(r) == g.key {
+							x = r
+						}
+					}
+				} else {
+					keys, err := w.readKeys()
+					fail("", err)
+					type mr struct{ slot, r int }
+					var cands []mr
+					for sl, c := range w.mgrs {
+						for r := 0; r < nres; r++ {
+							if _, present := keys[w.key(r)]; !present && !c.closed && len(c.inAcq) == 0 && !c.owns(r) {
+								cands = append(cands, mr{sl, r})
+							}
+						}
+					}
+					if len(cands) == 0 {
+						ops = append(ops, "skip-rotate")
+						return
+					}
+					pk := cands[rapid.IntRange(0, len(cands)-1).Draw(rt, "rotateIdx")]
+					m, x = w.mgrs[pk.slot], pk.r
+					startAcquire(pk.slot, x)
+					for i := 0; i < 6; i++ {
+						var next *c18Gate
+						for _, g := range w.parkedNow() {
+							if g.mgr == m && g.phase == "pre" && (g.kind == "grant" || g.key == w.key(x)) {
+								next = g
+								break
+							}
+						}
+						if next == nil {
+							break
+						}
+						v, err := w.step(next)
+						fail(v, err)
+						v, err = w.check(nres)
+						fail(v, err)
+					}
+				}
+				y := -1
+				for r := 0; r < nres; r++ {
+					if r != x && !m.inAcq[r] {
+						y = r
+					}
+				}
+				stillAnswered := false
+				for _, g := range w.parkedNow() {
+					if g.mgr == m && g.phase == "post" && c18IsWrite(g) && g.txnOK && x >= 0 && g.key == w.key(x) {
+						stillAnswered = true
+					}
+				}
+				if y < 0 || !stillAnswered {
+					ops = append(ops, "skip-rotate")
+					return
+				}
+				did, err := w.expire(m)
+				fail("", err)
+				v, err := w.check(nres)
+				fail(v, err)
+				startAcquire(m.slot, y)
+				for _, g := range w.parkedNow() {
+					if g.mgr == m && g.kind == "grant" && g.phase == "pre" {
+						v, err := w.step(g) // the new session exists once Grant is answered
+						fail(v, err)
+						break
+					}
+				}
+				ops = append(ops, fmt.Sprintf("rotate(b%d: answer for %d undelivered, session ended=%v, acquire %d on a new session)", m.slot, x, did, y))
+				if did {
+					w.rotated = true
+					w.contended = true
+				}
 			case "release":
 				// prefer a (process, resource) that is owned right now; superseded processes count
 				type mr struct {
@@ -1038,6 +1262,38 @@ func TestVF_C18_Schedules(t *testing.T) {
 				w.trace = append(w.trace, fmt.Sprintf("start releaseAll(%s.%d)", m.id, m.gen))
 				m.closed = true
 				fail("", w.launch(m.releaseAll))
+			case "expire-overtake":
+				// a manager that holds something and a resource it does not hold yet
+				type mr struct{ slot, r int }
+				var cands []mr
+				for s, m := range w.mgrs {
+					holds := false
+					for r := 0; r < nres; r++ {
+						if m.owns(r) {
+							holds = true
+						}
+					}
+					if !holds || m.closed {
+						continue
+					}
+					for r := 0; r < nres; r++ {
+						if !m.owns(r) && !m.inAcq[r] {
+							cands = append(cands, mr{s, r})
+						}
+					}
+				}
+				if len(cands) == 0 {
+					ops = append(ops, "skip-expire-overtake")
+					return
+				}
+				pk := cands[rapid.IntRange(0, len(cands)-1).Draw(rt, "overtakeIdx")]
+				queued, err := w.expireOvertake(w.mgrs[pk.slot], pk.r)
+				fail("", err)
+				ops = append(ops, fmt.Sprintf("expire-overtake(b%d,acquire %d)", pk.slot, pk.r))
+				if queued {
+					w.overtaken = true
+					w.contended = true
+				}
 			case "expire":
 				var withSess []int
 				for s, m := range w.mgrs {
@@ -1048,8 +1304,18 @@ func TestVF_C18_Schedules(t *testing.T) {
 					}
 					lm.mu.RUnlock()
 				}
+				// half of the time: a manager whose acquire has been answered by etcd but whose
+				// answer is still undelivered (the session ends under a committed transaction)
+				var answered []int
+				for _, g := range w.parkedNow() {
+					if g.phase == "post" && c18IsWrite(g) && g.txnOK && w.mgrs[g.mgr.slot] == g.mgr {
+						answered = append(answered, g.mgr.slot)
+					}
+				}
 				slot := 0
-				if len(withSess) > 0 {
+				if len(answered) > 0 && rapid.Bool().Draw(rt, "expireAnswered") {
+					slot = answered[rapid.IntRange(0, len(answered)-1).Draw(rt, "answeredIdx")]
+				} else if len(withSess) > 0 {
 					slot = withSess[rapid.IntRange(0, len(withSess)-1).Draw(rt, "sessIdx")]
 				} else {
 					slot = rapid.IntRange(0, nm-1).Draw(rt, "slot")
@@ -1183,6 +1449,15 @@ func TestVF_C18_Schedules(t *testing.T) {
 		}
 		if w.mismatchOther > 0 {
 			st.Class("owner-key-holds-other-id(not asserted)")
+		}
+		if w.overtaken {
+			st.Class("session-lost-and-an-acquire-overtakes-the-session-monitor")
+		}
+		if w.rotated {
+			st.Class("session-rotated-while-an-acquire-answer-is-undelivered")
+		}
+		if w.unnoticed {
+			st.Class("manager-did-not-notice-session-loss-by-itself")
 		}
 		if w.contended || w.postGateExpire {
 			st.Class("contended")
